@@ -123,5 +123,5 @@ func (e *IpnEndpoint) UnmarshalCbor(r io.Reader) error {
 		}
 	}
 
-	return nil
+	return e.CheckValid()
 }
